@@ -15,8 +15,21 @@ fn sym_byte() -> u8 {
     kani::any()
 }
 
+/// An arbitrary byte, case-split up front: on every path on which it is one of the bytes the tag / attribute
+/// states compare against it is that CONSTANT, so the re-reads after the tokenizer backs up (`raw.end -= 1`)
+/// fork nothing; the last branch keeps every other value symbolic.  The split is exhaustive, so it restricts
+/// nothing.  Pays off in the tag states only (in the data state it multiplies the paths by 14 for nothing).
+fn sym_byte_pinned() -> u8 {
+    let b: u8 = kani::any();
+    macro_rules! pin {
+        ($($c:expr),*) => { $( if b == $c { return $c; } )* };
+    }
+    pin!(b'>', b'/', b'=', b' ', b'\n', b'\r', b'\t', 0x0c, b'\'', b'"', b'<', b'!', b'-');
+    b
+}
+
 /// `prefix ++ s` as the array the oracle reads and as the Vec the tokenizer owns
-fn input<const S: usize, const N: usize>(prefix: &[u8]) -> ([u8; N], Vec<u8>) {
+fn input<const S: usize, const N: usize>(prefix: &[u8], pinned: bool) -> ([u8; N], Vec<u8>) {
     let mut a = [0u8; N];
     let mut i = 0;
     while i < prefix.len() {
@@ -25,7 +38,7 @@ fn input<const S: usize, const N: usize>(prefix: &[u8]) -> ([u8; N], Vec<u8>) {
     }
     let mut j = 0;
     while j < S {
-        a[prefix.len() + j] = sym_byte();
+        a[prefix.len() + j] = if pinned { sym_byte_pinned() } else { sym_byte() };
         j += 1;
     }
     let mut v = Vec::with_capacity(N);
@@ -141,9 +154,22 @@ macro_rules! tok {
         #[kani::unwind($u)]
         fn $name() {
             let p: &[u8] = $prefix;
-            let (a, v) = input::<$s, $n>(p);
+            let (a, v) = input::<$s, $n>(p, false);
             let t = if $ctx.is_empty() { Tokenizer::new(v) } else { Tokenizer::new_fragment(v, String::from($ctx)) };
             drive::<$n>(t, &a, false);
+        }
+    };
+}
+
+macro_rules! tok_pin {
+    ($name:ident, $prefix:expr, $s:expr, $n:expr, $u:expr, $acc:expr) => {
+        #[kani::proof]
+        #[kani::unwind($u)]
+        #[kani::stub(str::to_lowercase, lowercase_any_model)]
+        fn $name() {
+            let p: &[u8] = $prefix;
+            let (a, v) = input::<$s, $n>(p, true);
+            drive::<$n>(Tokenizer::new(v), &a, $acc);
         }
     };
 }
@@ -155,7 +181,7 @@ macro_rules! tok_acc {
         #[kani::stub(str::to_lowercase, lowercase_any_model)]
         fn $name() {
             let p: &[u8] = $prefix;
-            let (a, v) = input::<$s, $n>(p);
+            let (a, v) = input::<$s, $n>(p, false);
             drive::<$n>(Tokenizer::new(v), &a, true);
         }
     };
@@ -244,3 +270,16 @@ tok_acc!(c16_tok_acc_tag_s1, b"<a", 1, 3, 5);
 tok_acc!(c16_tok_acc_tagname2_s1, b"<ab", 1, 4, 6);
 tok_acc!(c16_tok_acc_endtag_s1, b"</a", 1, 4, 6);
 tok_acc!(c16_tok_acc_tag_utf8_s1, b"<a\xc3", 1, 4, 6);
+
+// tag / attribute states with the up-front case split (sym_byte_pinned)
+tok_pin!(c16_tokp_tag_utf8_s1, b"<a\xc3", 1, 4, 6, true);
+tok_pin!(c16_tokp_tag_s1, b"<a", 1, 3, 5, true);
+tok_pin!(c16_tokp_tag_s2, b"<a", 2, 4, 6, true);
+tok_pin!(c16_tokp_endtag_s2, b"</a", 2, 5, 7, true);
+tok_pin!(c16_tokp_endtag_utf8_s1, b"</a\xc2", 1, 5, 7, true);
+tok_pin!(c16_tokp_tag_sp_s2, b"<a ", 2, 5, 7, false);
+tok_pin!(c16_tokp_attr_key_s2, b"<a b", 2, 6, 8, false);
+tok_pin!(c16_tokp_attr_eq_s2, b"<a b=", 2, 7, 9, false);
+tok_pin!(c16_tokp_attr_sq_s2, b"<a b='", 2, 8, 10, false);
+tok_pin!(c16_tokp_attr_unq_s2, b"<a b=c", 2, 8, 10, false);
+tok_pin!(c16_tokp_attr_utf8_s1, b"<a b\xc3", 1, 6, 8, false);
